@@ -202,6 +202,21 @@ func (w *world) refusedSig(o ropt, noCompliantPath bool) string {
 			return "refused-valid-chain-old-self-signed-before-cross"
 		}
 	}
+	isLeaf := w.metas[w.chain[0].c].node < 0 && w.chain[0].c.Label == "leaf"
+	if isLeaf && w.c.Leaf.Bulk > 0 {
+		return "refused-valid-chain-large-body"
+	}
+	for i := range w.chain {
+		for j := i + 1; j < len(w.chain); j++ {
+			a, b := w.chain[i].c, w.chain[j].c
+			if a.Tmpl.Serial.Cmp(b.Tmpl.Serial) == 0 && bytes.Equal(a.IssuerDER(), b.IssuerDER()) {
+				return "refused-valid-chain-same-issuer-and-serial"
+			}
+		}
+	}
+	if isLeaf && w.c.Leaf.NBOff > 0 && (o.c.RejectExpired || o.c.RejectUnexpired) {
+		return "refused-valid-chain-inverted-validity"
+	}
 	// a valid chain that carries something the log must ignore: name the first such feature
 	if fs := w.ignoredFeatures(); len(fs) > 0 {
 		return "refused-valid-chain-" + strings.TrimPrefix(fs[0], "ignored:")
